@@ -212,7 +212,7 @@ def dchisq(x, df, log=False):
     if log:
         return st.chi2.logpdf(x, df=df)
     else:
-        return st.norm.pdf(x, df=df)
+        return st.chi2.pdf(x, df=df)
 
 def pchisq(x, df, log=False):
     '''
